@@ -74,6 +74,28 @@ func ruleI6In(c *Ctx, onlyPkg string, floor int) {
 			continue
 		}
 		eachInstr(fn, func(in ssa.Instruction) {
+			// sign-changing conversion of a full-range unsigned script integer
+			if cv, ok := in.(*ssa.Convert); ok {
+				src := taint[cv.X]
+				sb, ok1 := cv.X.Type().Underlying().(*types.Basic)
+				db, ok2 := cv.Type().Underlying().(*types.Basic)
+				if src != "" && ok1 && ok2 && (sb.Kind() == types.Uint64 || sb.Kind() == types.Uint) && (db.Kind() == types.Int64 || db.Kind() == types.Int) && reachesNumberSink(cv, map[ssa.Value]bool{}, 0) {
+					n++
+					key := fmt.Sprintf("%s: CONV unsigned->signed", fnName(fn))
+					ordinals[key]++
+					if k := ordinals[key]; k > 1 {
+						key = fmt.Sprintf("%s #%d", key, k)
+					}
+					if boundedBothSides(cv.Block(), cv.X) || upperBounded(cv.Block(), cv.X) {
+						c.ok(key, c.P.Pos(cv.Pos()), "the unsigned value ("+src+") is bounded by a dominating comparison before it is reinterpreted as signed")
+					} else if r, ok := i6Exceptions[key]; ok {
+						c.except(key, c.P.Pos(cv.Pos()), r)
+					} else {
+						c.viol(key, c.P.Pos(cv.Pos()), fmt.Sprintf("an unsigned 64-bit integer chosen by the script (%s) is converted to a signed one without a dominating bound: values of 2^63 and above turn negative and the built-in answers with a wrong number", src))
+					}
+				}
+				return
+			}
 			b, ok := in.(*ssa.BinOp)
 			if !ok {
 				return
@@ -254,6 +276,10 @@ func boundedBothSides(b *ssa.BasicBlock, v ssa.Value) bool {
 		taken := pc.Branch != neg
 		bo, ok := cond.(*ssa.BinOp)
 		if !ok {
+			continue
+		}
+		// only numeric comparisons bound a number (err == nil on the same call's other result does not)
+		if bt, ok := bo.X.Type().Underlying().(*types.Basic); !ok || bt.Info()&types.IsNumeric == 0 {
 			continue
 		}
 		xr, yr := derives(bo.X), derives(bo.Y)
@@ -511,10 +537,45 @@ func reachesNumberSink(v ssa.Value, seen map[ssa.Value]bool, depth int) bool {
 			if _, n := namedOf(x.X.Type()); n == "Duration" || n == "Time" {
 				return true
 			}
-		case *ssa.BinOp, *ssa.Convert, *ssa.ChangeType, *ssa.Phi:
+		case *ssa.BinOp, *ssa.Convert, *ssa.ChangeType, *ssa.Phi, *ssa.UnOp:
+			if u, ok := r.(*ssa.UnOp); ok && u.Op != token.SUB && u.Op != token.XOR {
+				continue
+			}
 			if reachesNumberSink(r.(ssa.Value), seen, depth+1) {
 				return true
 			}
+		}
+	}
+	return false
+}
+
+// upperBounded: a dominating comparison bounds the (unsigned) value from above by a constant.
+func upperBounded(b *ssa.BasicBlock, v ssa.Value) bool {
+	for _, pc := range pathConds(b) {
+		cond, neg := stripNot(pc.If.Cond)
+		bo, ok := cond.(*ssa.BinOp)
+		if !ok {
+			continue
+		}
+		taken := pc.Branch != neg
+		op := bo.Op
+		var k ssa.Value
+		if bo.X == v || sameLoad(bo.X, v) {
+			k = bo.Y
+		} else if bo.Y == v || sameLoad(bo.Y, v) {
+			k = bo.X
+			op = i9Flip(op)
+		} else {
+			continue
+		}
+		if _, isK := k.(*ssa.Const); !isK {
+			continue
+		}
+		if !taken {
+			op = i9Neg(op)
+		}
+		if op == token.LEQ || op == token.LSS {
+			return true
 		}
 	}
 	return false
